@@ -309,6 +309,9 @@ def gen_field(rnd, quote, depth):
         spec = rnd.choice([":" + other + "^5", ":" + other, ":>" + other + "{w}" + other])
     elif r < 0.12 and len(quote) == 3:
         spec = rnd.choice([":\n>3", ":>3\n", ":\n{w}\n"])  # a spec of a triple-quoted f-string may span lines
+    elif r < 0.14 and len(quote) == 1 and not dbg:
+        # a line end terminates the format spec of a single-quoted f-string; the field goes on (white space only)
+        spec = rnd.choice([":d\n", ":>3\n  ", ":{w}\n", ":\n"])
     elif r < 0.16 and len(quote) == 3:
         q = quote[0]  # one or two quote characters do not end a triple-quoted literal, in a spec either
         spec = rnd.choice([":" + q + ">5", ":" + q + q + "^{w}", ":>" + q + "{w}" + q + " ", ":x" + q + "x"])
